@@ -5,7 +5,8 @@
 (* mailbox.Client / ClientConn / grpcTransport over the in-process relay):  *)
 (*                                                                          *)
 (*  client segments ("c": the pairing client, "x": a second client)         *)
-(*   {"op":"reset","who":w}                                                 *)
+(*   {"op":"reset","who":w,"ws":0|1}   ws: the client uses the websocket    *)
+(*        transport through the REST front door (harness/wsrelay)           *)
 (*   {"op":"relay","rop":"recvErr"|"sendErr"|"deliver","cls":..}  what the  *)
 (*        relay answered to a stream call of this client (recorded by the   *)
 (*        relay before the call returns)                                    *)
@@ -36,7 +37,7 @@ Kinds == {"recvOk", "recvFail", "sendFail", "finCb"}
 Wants == Kinds \X Codes
 
 VARIABLES l,
-          mode,      \* "c" (a client segment) or "s" (the server segment)
+          mode,      \* "c" (a client on the gRPC transport), "w" (on the websocket transport) or "s" (the server segment)
           pendErr,   \* [NC/NF/IU -> receive errors of that class the relay returned, not yet seen at the hook]
           pendDel,   \* messages the relay delivered to this client, not yet seen at the hook
           pendSend,  \* send errors the relay returned, not yet seen at the hook
@@ -58,7 +59,7 @@ TInit == Init /\ l = 1 /\ mode = "c" /\ pendErr = ZeroErr /\ pendDel = 0 /\ pend
 
 TReset == /\ Is("reset") /\ Adv
           /\ n' = 0 /\ reg' = <<>> /\ got' = <<>> /\ finTo' = 0 /\ pub' = NC /\ lastFin' = FALSE
-          /\ mode' = (IF Ev.who = "s" THEN "s" ELSE "c")
+          /\ mode' = (IF Ev.who = "s" THEN "s" ELSE IF Ev.ws = 1 THEN "w" ELSE "c")
           /\ pendErr' = ZeroErr /\ pendDel' = 0 /\ pendSend' = 0 /\ want' = <<>>
           /\ sOpen' = 0 /\ sDel' = 0 /\ sErr' = 0
 
@@ -66,7 +67,7 @@ KeepS == UNCHANGED <<mode, sOpen, sDel, sErr>>
 
 \* ---- client segments -----------------------------------------------------
 TRelayC ==
-    /\ mode = "c" /\ Is("relay") /\ Adv /\ UNCHANGED vars /\ KeepS /\ UNCHANGED want
+    /\ mode \in {"c", "w"} /\ Is("relay") /\ Adv /\ UNCHANGED vars /\ KeepS /\ UNCHANGED want
     /\ CASE Ev.rop = "recvErr" -> /\ pendErr' = [pendErr EXCEPT ![ClsCode(Ev.cls)] = @ + 1]
                                   /\ UNCHANGED <<pendDel, pendSend>>
          [] Ev.rop = "sendErr" -> pendSend' = pendSend + 1 /\ UNCHANGED <<pendErr, pendDel>>
@@ -76,25 +77,33 @@ TRelayC ==
 \* Client.Dial created or refreshed a connection; which of the two is not
 \* logged - the FIN callback's target (finCb lines) tells later
 TNew ==
-    /\ mode = "c" /\ Is("new") /\ Adv /\ Ev.conn = n + 1
+    /\ mode \in {"c", "w"} /\ Is("new") /\ Adv /\ Ev.conn = n + 1
     /\ \E f \in BOOLEAN : NewConn(f)
     /\ want' = [k \in 1..(n + 1) |-> IF k = n + 1 THEN ZeroWant ELSE want[k]]
     /\ KeepS /\ UNCHANGED <<pendErr, pendDel, pendSend>>
 
 \* recv / send / the FIN closure is about to call setStatus(st)
 TCause ==
-    /\ mode = "c" /\ l <= Len(Trace) /\ Ev.op \in Kinds /\ Adv
+    /\ mode \in {"c", "w"} /\ l <= Len(Trace) /\ Ev.op \in Kinds /\ Adv
     /\ Ev.conn \in 1..n /\ UNCHANGED vars /\ KeepS
     /\ want' = [want EXCEPT ![Ev.conn][<<Ev.op, Ev.st>>] = @ + 1]
     /\ CASE Ev.op = "recvOk" ->   \* only a message the relay delivered makes a connection "Connected"
               /\ Ev.st = CO /\ pendDel > 0 /\ pendDel' = pendDel - 1
               /\ UNCHANGED <<pendErr, pendSend>>
-         [] Ev.op = "recvFail" -> \* the status asked for is the class of the error the relay returned
-              /\ Ev.st \in {NC, NF, IU} /\ pendErr[Ev.st] > 0
-              /\ pendErr' = [pendErr EXCEPT ![Ev.st] = @ - 1]
+         [] Ev.op = "recvFail" -> \* the status asked for is the class of the error the relay returned;
+                                  \* on the websocket transport a failing socket read (the socket was
+                                  \* closed, locally or by the proxy) asks for "Not Connected" by itself
+              /\ Ev.st \in {NC, NF, IU}
+              /\ IF pendErr[Ev.st] > 0
+                 THEN pendErr' = [pendErr EXCEPT ![Ev.st] = @ - 1]
+                 ELSE mode = "w" /\ Ev.st = NC /\ UNCHANGED pendErr
               /\ UNCHANGED <<pendDel, pendSend>>
-         [] Ev.op = "sendFail" -> \* grpcTransport.Send: always "Not Connected"
-              /\ Ev.st = NC /\ pendSend > 0 /\ pendSend' = pendSend - 1
+         [] Ev.op = "sendFail" -> \* grpcTransport.Send: always "Not Connected", after a send error of
+                                  \* the relay; a websocket write can also fail on a socket the proxy
+                                  \* has closed earlier
+              /\ Ev.st = NC
+              /\ IF pendSend > 0 THEN pendSend' = pendSend - 1
+                 ELSE mode = "w" /\ UNCHANGED pendSend
               /\ UNCHANGED <<pendErr, pendDel>>
          [] Ev.op = "finCb" ->    \* the closure's connection is the model's FIN target
               /\ Ev.st = NF /\ Ev.conn = finTo
@@ -102,7 +111,7 @@ TCause ==
 
 \* setStatus's critical section: one step of Status.tla
 TStatus ==
-    /\ mode = "c" /\ l <= Len(Trace) /\ Ev.op \in {"status", "statusKept"} /\ Adv
+    /\ mode \in {"c", "w"} /\ l <= Len(Trace) /\ Ev.op \in {"status", "statusKept"} /\ Adv
     /\ Ev.conn \in 1..n /\ KeepS /\ UNCHANGED <<pendErr, pendDel, pendSend>>
     /\ (Ev.op = "statusKept") = Kept(Ev.conn, Ev.st)
     /\ \E kd \in Kinds :
@@ -116,7 +125,7 @@ TStatus ==
     /\ Ev.op = "status" => reg'[Ev.conn] = Ev.st
 
 \* Client.ConnStatus()
-TPub == /\ mode = "c" /\ Is("pub") /\ Adv /\ Ev.st = pub
+TPub == /\ mode \in {"c", "w"} /\ Is("pub") /\ Adv /\ Ev.st = pub
         /\ UNCHANGED vars /\ KeepS /\ UNCHANGED <<pendErr, pendDel, pendSend, want>>
 
 \* ---- server segment ------------------------------------------------------
